@@ -133,6 +133,56 @@ def catalogue():
                                                   "da": ref("FA", "v"), "db": ref("FB", "v")}, dis=ref("F1", "v"))],
                                {"o": ref("P1", "y"), "p": ref("P1", "z")})], "TOP", {"x": 1}))
 
+    # 8d. two nested disabled sub-pipelines whose conditions are different outputs of ONE
+    #     stage (outer true, inner false); the consumed value passes through the inner one
+    P.append(program("dis_same_stage", [],
+                     [stage("D", "", "bool t, bool f", {"t": const(True), "f": const(False)}), S_echo("W"), S_echo("CONS")],
+                     [pipeline("SUBI", "int x", "int y, int w",
+                               [call("W", binds={"x": self_("x")})], {"y": self_("x"), "w": ref("W", "y")}),
+                      pipeline("SUBO", "int x, bool di", "int y, int w",
+                               [call("SUBI", binds={"x": self_("x")}, dis=self_("di"))],
+                               {"y": ref("SUBI", "y"), "w": ref("SUBI", "w")}),
+                      pipeline("TOP", "int x", "int o, int p",
+                               [call("D"),
+                                call("SUBO", binds={"x": self_("x"), "di": ref("D", "f")}, dis=ref("D", "t")),
+                                call("CONS", binds={"x": ref("SUBO", "y")})],
+                               {"o": ref("CONS", "y"), "p": ref("SUBO", "w")})], "TOP", {"x": 5}))
+    # 8e. two-dimensional array of structs from a stage bound to a narrower struct; the
+    #     last row needs no narrowing
+    P.append(program("narrow2d", [struct("BIG", "int a, int b, int c"), struct("SMALL", "int a, int b")],
+                     [S_const("MK", "BIG[][] rows, map<BIG[]> byk",
+                              {"rows": [[{"a": 1, "b": 2, "c": 3}, {"a": 4, "b": 5, "c": 6}], []],
+                               "byk": {"k1": [{"a": 1, "b": 2, "c": 3}], "k2": []}}),
+                      stage("USE", "SMALL[][] rows, map<SMALL[]> byk", "int n", {"n": const(1)})],
+                     [pipeline("TOP", "", "int n",
+                               [call("MK"), call("USE", binds={"rows": ref("MK", "rows"), "byk": ref("MK", "byk")})],
+                               {"n": ref("USE", "n")})], "TOP", {}))
+
+    # 8f. a pipeline with its own preflight that contains a sub-pipeline with a preflight and a
+    #     stage whose inputs do not come from any top-level stage
+    P.append(program("preflight_nested", [], [stage("CHK", "int v", "", {}), S_echo("W"), S_echo("V")],
+                     [pipeline("INNER", "int x", "int y",
+                               [call("ICHK", "CHK", binds={"v": lit(2)}, pre=True),
+                                call("W", binds={"x": lit(7)}),
+                                call("V", binds={"x": self_("x")})],
+                               {"y": ref("W", "y")}),
+                      pipeline("TOP", "int x", "int o",
+                               [call("CHK", binds={"v": lit(1)}, pre=True),
+                                call("INNER", binds={"x": self_("x")})],
+                               {"o": ref("INNER", "y")})], "TOP", {"x": 1}))
+    # 8g. a call in a mapped pipeline disabled by the element of a flag array whose producer is
+    #     not the producer of the data
+    P.append(program("dis_split_flag", [],
+                     [stage("FLAGS", "", "bool[] skips", {"skips": const([True, False])}),
+                      stage("DATA", "", "int[] xs", {"xs": const([10, 20])}), S_echo("WORK")],
+                     [pipeline("INNER", "int x, bool skip", "int y",
+                               [call("WORK", binds={"x": self_("x")}, dis=self_("skip"))],
+                               {"y": self_("x")}),
+                      pipeline("TOP", "", "int[] o",
+                               [call("FLAGS"), call("DATA"),
+                                call("INNER", binds={"x": split(ref("DATA", "xs")), "skip": split(ref("FLAGS", "skips"))}, mode="array")],
+                               {"o": ref("INNER", "y")})], "TOP", {}))
+
     # 9. splitting stage with run-time chunk count 2 / 0 and a consumer
     for nm, val in (("split2", [1, 2]), ("split0", []), ("split1", [5]), ("split10", list(range(10)))):
         P.append(program(nm, [], [S_split("S"), stage("R", "int[] xs", "int n", {"n": length("xs")})],
@@ -199,6 +249,18 @@ def catalogue():
                       pipeline("TOP", "int[] ns", "int[][] o",
                                [call("SUB", binds={"n": split(self_("ns"))}, mode="array")],
                                {"o": ref("SUB", "ys")})], "TOP", {"ns": [1, 2]}))
+
+    # 14b. the same with an empty inner collection in the first / the last outer fork
+    for nm, ns in (("map_nested_e1", [0, 2]), ("map_nested_e2", [2, 0])):
+        P.append(program(nm, [],
+                         [S_echo("X"), stage("MK2", "int n", "int[] arr", {"arr": {"k": "arrn", "src": "n"}})],
+                         [pipeline("SUB", "int n", "int[] ys",
+                                   [call("MK2", binds={"n": self_("n")}),
+                                    call("X", binds={"x": split(ref("MK2", "arr"))}, mode="array")],
+                                   {"ys": ref("X", "y")}),
+                          pipeline("TOP", "int[] ns", "int[][] o",
+                                   [call("SUB", binds={"n": split(self_("ns"))}, mode="array")],
+                                   {"o": ref("SUB", "ys")})], "TOP", {"ns": ns}))
 
     # 15. typed maps with keys that stress fork naming and journal routing
     for nm, keys in (("keys_suffix", ["a_b", "b"]), ("keys_encoded", ["a b", "a%20b"]),
